@@ -88,13 +88,16 @@ func (p *Prog) writerTable(fi *FuncInfo, buf *types.Var) []layoutField {
 			if !ok {
 				return true
 			}
-			out = append(out, layoutField{Name: valueName(p, x.Args[1]), Off: off, Width: widthOfPut(f.Name()), Pos: x.Pos()})
+			out = append(out, layoutField{Name: valueNameIn(p, fi, x.Args[1]), Off: off, Width: widthOfPut(f.Name()), Pos: x.Pos()})
 		case *ast.AssignStmt:
-			if len(x.Lhs) == 1 && len(x.Rhs) == 1 && x.Tok == token.ASSIGN {
-				if ix, ok := ast.Unparen(x.Lhs[0]).(*ast.IndexExpr); ok {
-					if id, ok := ast.Unparen(ix.X).(*ast.Ident); ok && p.Info.Uses[id] == buf {
-						if c, ok := p.constVal(ix.Index); ok {
-							out = append(out, layoutField{Name: valueName(p, x.Rhs[0]), Off: c, Width: 1, Pos: x.Pos()})
+			// ptr[4] = v, also in a parallel assignment ptr[4], ptr[5] = a, b
+			if len(x.Lhs) == len(x.Rhs) && x.Tok == token.ASSIGN {
+				for i := range x.Lhs {
+					if ix, ok := ast.Unparen(x.Lhs[i]).(*ast.IndexExpr); ok {
+						if id, ok := ast.Unparen(ix.X).(*ast.Ident); ok && p.Info.Uses[id] == buf {
+							if c, ok := p.constVal(ix.Index); ok {
+								out = append(out, layoutField{Name: valueNameIn(p, fi, x.Rhs[i]), Off: c, Width: 1, Pos: x.Pos()})
+							}
 						}
 					}
 				}
@@ -108,6 +111,22 @@ func (p *Prog) writerTable(fi *FuncInfo, buf *types.Var) []layoutField {
 
 // valueName names the value written: the field selected (seg.sn -> "sn"),
 // len(seg.data) -> "len", a constant -> its value.
+// valueNameIn: valueName with a local defined once in fi resolved to its definition (payloadLen := uint32(len(seg.data))).
+func valueNameIn(p *Prog, fi *FuncInfo, e ast.Expr) string {
+	t := p.Term(e)
+	for t.Op == "conv" {
+		t = t.Args[0]
+	}
+	if t.Op == "var" {
+		if v, ok := t.Obj.(*types.Var); ok && !p.isParam(v) {
+			if as := p.Assignments(rootFuncInfo(fi), v); len(as) == 1 && as[0].Rhs != nil {
+				return valueName(p, as[0].Rhs)
+			}
+		}
+	}
+	return valueName(p, e)
+}
+
 func valueName(p *Prog, e ast.Expr) string {
 	t := p.Term(e)
 	for t.Op == "conv" {
@@ -134,6 +153,7 @@ func checkC09(p *Prog, r *Report) {
 	r.rule("C09.L6", "in encode: one sealData per call; when the group is complete every path runs exactly one of {seal every parity shard, skipParity()}, the parity slice is shardCache[dataShards:], and the group counters are reset", 3)
 	r.rule("C09.L7", "every BlockCrypt.Encrypt / aeadCrypt.Seal in the output path (postProcess and the helpers it calls) is preceded on every path by fillRand on the nonce prefix of the same buffer, with no other encryption of that buffer in between", 3)
 	r.rule("C09.L12", "parity is the Reed-Solomon code every decoder expects: all construction sites of the codec (encoder, decoder, retune) pass the same options (= C07.F11) — an option on one side only (the XOR matrix for one parity shard) changes the parity bytes and nothing else", 1)
+	r.rule("C09.L14", "the FEC configuration the application asked for is the one on the wire: wherever a constructor hands its dataShards / parityShards parameter to another function of the package, it arrives in the parameter of the same name — two adjacent ints transposed give a P+D cycle with parity packets at data positions", 6)
 	r.rule("C09.L13", "every datagram that leaves under a cipher carries a fresh nonce: in the transmit path each arm of the cipher dispatch other than 'no cipher' fills the nonce prefix of the packet, and inside its loop over the parity packets that of each parity packet — an arm that only checksums (a pass-through cipher) sends stale pool bytes, or zeros, in the nonce field", 2)
 	r.rule("C09.L11", "the frame is produced by one encryptor at a time: the CFB feedback registers of a cipher object (shared by all sessions of a listener, or by sessions given the same BlockCrypt) are read and written under its mutex only (= C14.L1 for blockCrypt.encbuf/decbuf) — interleaved encryptions leave datagrams whose checksum field does not match their bytes under independent decryption", 4)
 	r.rule("C09.L10", "every datagram is handed to the socket once: a batch write that may accept fewer messages than offered is continued at the first message not yet accepted (the queue is re-sliced by the returned count, or the next call starts at the running count) — restarting at message 0 emits the head of the batch again, byte for byte, nonce included", 1)
@@ -190,6 +210,7 @@ func checkC09(p *Prog, r *Report) {
 	checkBatchWriteContinues(p, r)
 	delegate(p, r, "C07", checkC07, "C07.F11", "C09.L12")
 	checkEveryCipherArmFillsNonce(p, r)
+	checkShardParamsInOrder(p, r)
 	{
 		key := "delegate:C14:" + r.curCfg
 		sub, _ := p.memo[key].(*Report)
@@ -1487,5 +1508,45 @@ func checkEveryCipherArmFillsNonce(p *Prog, r *Report) {
 	}
 	if n == 0 {
 		r.bad("C09.L13", pp.Name, p.Pos(pp.Node), "cipher dispatch of the transmit path", "no type switch over the session's cipher found in postProcess (or the helpers it calls)", "")
+	}
+}
+
+// checkShardParamsInOrder: C09.L14.
+func checkShardParamsInOrder(p *Prog, r *Report) {
+	names := map[string]bool{"dataShards": true, "parityShards": true}
+	n := 0
+	for _, fi := range p.funcs {
+		if fi.Body == nil {
+			continue
+		}
+		p.AllCallsIn(fi, func(call *ast.CallExpr) {
+			f := p.Callee(call)
+			if f == nil || f.Pkg() != p.Types {
+				return
+			}
+			sig, ok := f.Type().(*types.Signature)
+			if !ok {
+				return
+			}
+			for i, a := range call.Args {
+				id, isId := ast.Unparen(a).(*ast.Ident)
+				if !isId {
+					continue
+				}
+				v, isV := p.Info.Uses[id].(*types.Var)
+				if !isV || !p.isParam(v) || !names[v.Name()] || i >= sig.Params().Len() {
+					continue
+				}
+				pn := sig.Params().At(i).Name()
+				if !names[pn] {
+					continue // handed to something that is not a shard count (a generic helper)
+				}
+				n++
+				r.check(pn == v.Name(), "C09.L14", rootFuncInfo(fi).Name, p.Pos(call), v.Name()+" handed to "+f.Name()+" in "+rootFuncInfo(fi).Name, "arrives in the parameter named "+v.Name(), "the "+v.Name()+" parameter is passed in the position of "+f.Name()+"'s "+pn+": a session asked for D data and P parity shards sends a P+D cycle — parity packets at data positions, groups no independent decoder can reconstruct")
+			}
+		})
+	}
+	if n == 0 {
+		r.bad("C09.L14", "constructors", "-", "shard parameters", "no constructor passes dataShards / parityShards on", "")
 	}
 }
